@@ -12,11 +12,17 @@ import json, subprocess
 def show(stage):
     try: return json.loads(subprocess.check_output(['git','show',f':{stage}:known-findings.json'], stderr=subprocess.DEVNULL))
     except Exception: return None
-ours, theirs = show(2), show(3)
+base, ours, theirs = show(1), show(2), show(3)
 if ours and theirs:
-    ids = {f['id'] for f in ours['findings']}
-    for f in theirs['findings']:
-        if f['id'] not in ids: ours['findings'].append(f)
+    base = base or {"findings": [], "fixed": []}
+    props = {f['property'] for k in (base, ours, theirs) for f in k['findings']}
+    def of(k, p): return [f for f in k['findings'] if f['property'] == p]
+    out = []
+    for p in sorted(props):
+        # per property: the side that changed the list relative to the merge base wins (a branch that moved its
+        # findings to `fixed` must not get them back from the other side)
+        out += of(theirs, p) if of(theirs, p) != of(base, p) else of(ours, p)
+    ours['findings'] = out
     for x in theirs.get('fixed', []):
         if x not in ours.setdefault('fixed', []): ours['fixed'].append(x)
     json.dump(ours, open('known-findings.json','w'), indent=1)
@@ -35,15 +41,45 @@ open(p,'w').write(''.join(out))
 PY
   git add harness/Cargo.toml
 fi
+if git diff --name-only --diff-filter=U | grep -q '^tools/extract_consts.py$'; then
+  python3 - <<'PY'
+p='tools/extract_consts.py'
+out=[]
+for l in open(p):
+    if l.startswith('<<<<<<<') or l.startswith('=======') or l.startswith('>>>>>>>'): continue
+    out.append(l)
+open(p,'w').write(''.join(out))
+PY
+  git add tools/extract_consts.py
+fi
+for f in $(git diff --name-only --diff-filter=U | grep "^lean/HickoryVerif/Generated/" || true); do git checkout --ours "$f"; git add "$f"; done
 if git diff --name-only --diff-filter=U | grep -q '^harness/Cargo.lock$'; then
   git checkout --ours harness/Cargo.lock; git add harness/Cargo.lock
 fi
 for f in $(git diff --name-only --diff-filter=U | grep "^evidence/" || true); do git checkout --theirs "$f"; git add "$f"; done
 git checkout --ours MANIFEST.json 2>/dev/null || true
+python3 tools/extract_consts.py >/dev/null 2>&1 || true
+git add lean/HickoryVerif/Generated 2>/dev/null || true
 python3 tools/gen_manifest.py
 git add known-findings.json MANIFEST.json
 left=$(git diff --name-only --diff-filter=U)
 if [ -n "$left" ]; then echo "UNRESOLVED: $left"; exit 1; fi
+# dedupe dependency keys (two branches may add the same crate with different spellings)
+python3 - <<'PY'
+import re
+p='harness/Cargo.toml'
+out=[]; seen=set(); sect=None
+for l in open(p):
+    m=re.match(r'\[(.*)\]',l.strip())
+    if m: sect=m.group(1)
+    k=re.match(r'([A-Za-z0-9_-]+)\s*=',l)
+    if sect=='dependencies' and k:
+        if k.group(1) in seen: continue
+        seen.add(k.group(1))
+    out.append(l)
+open(p,'w').write(''.join(out))
+PY
+git add harness/Cargo.toml
 (cd harness && CARGO_NET_OFFLINE=true cargo build --offline 2>&1 | grep -E "^error" -A6 | head -20) || true
 git add harness/Cargo.lock 2>/dev/null || true
 git commit -qm "merge $b" && echo "merged $b"
